@@ -820,7 +820,7 @@ func (u *Unmarshaler) processNamedFieldWithoutValue(fieldType reflect.Type, valu
 	case reflect.Array, reflect.Map, reflect.Slice:
 		if !opts.optional() {
 			return u.processFieldNotFromString(fieldType, value, valueWithParent{
-				value: emptyMap,
+				value: map[string]any{}, // 每次新建：该 map 可能成为结果的一部分，不能共享
 			}, opts, fullName)
 		}
 	case reflect.Struct:
@@ -835,7 +835,7 @@ func (u *Unmarshaler) processNamedFieldWithoutValue(fieldType reflect.Type, valu
 			}
 
 			return u.processFieldNotFromString(fieldType, value, valueWithParent{
-				value: emptyMap,
+				value: map[string]any{}, // 每次新建：该 map 可能成为结果的一部分，不能共享
 			}, opts, fullName)
 		}
 	default:
